@@ -82,6 +82,7 @@ func VerifyFunc(w *World, cs *ContractSet, ct *Contract) *FuncResult {
 	}()
 	st := &State{pc: tTrue, cells: map[*Cell]Value{}, heap: map[string]Term{}, locks: map[string]int{}}
 	st.alloc = e.smt.fresh("alloc0", SInt)
+	e.entryAlloc = st.alloc
 	e.assumeGlobal(tLe(tInt(0), st.alloc))
 	var args []Value
 	for _, p := range fn.Params {
@@ -209,6 +210,14 @@ func (e *Exec) frameFormula(k string, ot, nt Term, mods []*Ptr, alloc Term) (Ter
 			}
 		}
 		goal = fmt.Sprintf("(forall ((a Int) (i Int)) (! (=> (and (< 0 a) (<= a %s) %s) (= (select (select %s a) i) (select (select %s a) i))) :pattern ((select (select %s a) i))))", alloc0, strings.Join(excl, " "), nt.S, ot.S, nt.S)
+	case strings.HasPrefix(k, "G."):
+		var excl []string
+		for _, p := range mods {
+			if p.Kind == pModGhost && "G."+p.GhostName == k {
+				excl = append(excl, fmt.Sprintf("(not (= r %s))", p.Ref.S))
+			}
+		}
+		goal = fmt.Sprintf("(forall ((r Int)) (! (=> (and (< 0 r) (<= r %s) %s) (= (select %s r) (select %s r))) :pattern ((select %s r))))", alloc0, strings.Join(excl, " "), nt.S, ot.S, nt.S)
 	case strings.HasPrefix(k, "M."):
 		var excl []string
 		for _, p := range mods {
